@@ -154,13 +154,14 @@ Print Assumptions C07_state_fidelity_partial.
    Pipeline-shaped one (steps = list of (str, estimator) tuples; the final estimator is ALSO reachable from a second place: one
    object, two occurrences) satisfy the guard, and the model round trip -- computed through dumps_model / get_tree / construct by
    vm_compute -- returns the estimator itself; the shared estimator is written once and referenced *)
+Definition w_logreg_state (id : Z) : pval :=
+  pdict (id + 1) [(kstr "C", PScalar (id + 2) (SFloat (s "1.0")));
+                  (kstr "coef_", PArr (id + 3) false (s "numpy") (s "ndarray") (s "tok-coef-f8-1x4"));
+                  (kstr "classes_", PArr (id + 4) false (s "numpy") (s "ndarray") (s "tok-classes-i8-2"));
+                  (kstr "n_iter_", PArr (id + 5) false (s "numpy") (s "ndarray") (s "tok-niter-i4-1"));
+                  (kstr "_sklearn_version", pstr_ (id + 6) "1.9.1")].
 Definition w_logreg (id : Z) : pval :=
-  PObj id (s "sklearn.linear_model._logistic") (s "LogisticRegression") HKNone [] OKState
-    (pdict (id + 1) [(kstr "C", PScalar (id + 2) (SFloat (s "1.0")));
-                     (kstr "coef_", PArr (id + 3) false (s "numpy") (s "ndarray") (s "tok-coef-f8-1x4"));
-                     (kstr "classes_", PArr (id + 4) false (s "numpy") (s "ndarray") (s "tok-classes-i8-2"));
-                     (kstr "n_iter_", PArr (id + 5) false (s "numpy") (s "ndarray") (s "tok-niter-i4-1"));
-                     (kstr "_sklearn_version", pstr_ (id + 6) "1.9.1")]).
+  PObj id (s "sklearn.linear_model._logistic") (s "LogisticRegression") HKNone [] OKState (w_logreg_state id).
 Definition w_pipeline : pval :=
   let sc := PObj 20 (s "sklearn.preprocessing._data") (s "StandardScaler") HKNone [] OKState
               (pdict 21 [(kstr "with_mean", PScalar 22 (SBool true)); (kstr "mean_", PArr 23 false (s "numpy") (s "ndarray") (s "tok-mean"));
@@ -184,15 +185,15 @@ Proof. repeat split; vm_compute; reflexivity. Qed.
 
 (* the sigma type of states is inhabited by the state dict of that estimator, and the discharged premise computes on it *)
 Example C07_codec_premise_nonvacuous :
-  exists s : fstate wf (wd Snapshot.current) wbase,
-    match w_logreg 1 with PObj _ _ _ _ _ _ st => fval _ _ _ s = st | _ => False end
-    /\ exists s', fdec Snapshot.registry Snapshot.current wf (wd Snapshot.current) wbase (fenc _ _ _ s) = Some s'
-                  /\ fval _ _ _ s' = fval _ _ _ s.
+  exists s0 : fstate wf (wd Snapshot.current) wbase,
+    fval _ _ _ s0 = w_logreg_state 1
+    /\ exists s', fdec Snapshot.registry Snapshot.current wf (wd Snapshot.current) wbase (fenc _ _ _ s0) = Some s'
+                  /\ fval _ _ _ s' = fval _ _ _ s0.
 Proof.
-  assert (Hg : c05_guard wf (wd Snapshot.current) wbase (w_logreg 1) = true) by (vm_compute; reflexivity).
-  pose proof (guard_obj_state _ _ _ _ _ _ _ Hg) as Hs.
-  eexists (exist _ _ Hs). split; [reflexivity|].
-  destruct (C07_codec_premise_on_fragment wf (wd Snapshot.current) wbase eq_refl eq_refl (exist _ _ Hs)) as [s' [Hd Hi]].
+  assert (Hs : c05_guard wf (wd Snapshot.current) wbase (w_logreg_state 1) = true) by (vm_compute; reflexivity).
+  set (s0 := exist (fun v => c05_guard wf (wd Snapshot.current) wbase v = true) (w_logreg_state 1) Hs).
+  exists s0. split; [reflexivity|].
+  destruct (C07_codec_premise_on_fragment wf (wd Snapshot.current) wbase eq_refl eq_refl s0) as [s' [Hd Hi]].
   exists s'. split; [exact Hd|symmetry; exact Hi].
 Qed.
 
